@@ -552,6 +552,7 @@ func richValue(t *rapid.T, k string, n int) val.V {
 
 func drawChain(t *rapid.T) (chain.Case, []val.KV) {
 	cs := chain.DrawConforming(t, chain.GenOpt{MaxLen: 3, Commands: true, Policies: true, Args: true, Irrelevant: true, Times: rapid.Bool().Draw(t, "times")})
+	cs.Inv.UcanArg = 0 // the "ucan" argument names a proof CID, which differs between two builds under randomised signatures: not comparable "alone"
 	if rapid.IntRange(0, 3).Draw(t, "deviate") == 1 {
 		// a chain that must be refused, in any of the ways a chain can be wrong (proofs in another order, a link
 		// about someone else, a missing proof, ...): a refusal leaves the tokens exactly as an approval does
